@@ -6,9 +6,13 @@ per program: every Python-legal signature of up to N parameters over 8 type hint
 class with __init__ parameters and one or two methods (with parameter names shared between __init__ and the method;
 methods plain / @classmethod / @staticmethod, methods and constructor defined in the class or inherited from a base
 class), a function + class mixture (class with one or two methods, in a list or nested in a dict group), a dataclass
-and a plain class without methods.  Every input of the plan (each parameter omitted / on the command line / in a
---config file, plus value, layout, option style, config placement and as_positional variations; sub-command levels
-selected by their tokens or by explicit "subcommand" keys of the config, alone and next to sections of siblings) is
+and a plain class without methods.  A second alphabet (Optional of str / enum / List / Dict / Tuple / a Union, Tuple,
+a dataclass, Optional[dataclass], a class given by class_path, Optional[class]) is put at every position of the 1-
+and 2-parameter patterns for every component form.  Every input of the plan (each parameter omitted / on the command
+line / in a --config file, plus value, layout, option style, config placement and as_positional variations;
+sub-command levels selected by their tokens or by explicit "subcommand" keys of the config, alone and next to
+sections of siblings; the settings of one path distributed over TWO config files, the second one given at the top
+level, at an intermediate sub-command level or at the component's own level) is
 run through the real ``auto_cli(components, args=[...])``.  The generated callees log
 what they are called with; the log is compared with the binding computed from the signature alone.
 """
@@ -33,7 +37,8 @@ META = {
     "The oracle is derived from the signature alone (value given -> typed value; else default; Optional without "
     "default -> None; required and missing -> exit status 2; exactly one call; return value passed through).",
     "level_note": "Trusted: the 25-line rule that maps an assignment to a command line (required non-Optional "
-    "parameters are positionals in signature order when as_positional=True, everything else is --name; positional "
+    "parameters are positionals in signature order when as_positional=True, everything else is --name; a "
+    "dataclass-typed parameter is never positional, its fields are --name.field; positional "
     "tokens are consumed in order), two valid values and two defaults per type hint, CPython's own binding of the "
     "call the library makes. Bounded by parameter count and the type alphabet; parameter names are p0.. (no clashes "
     "with --config / --help / sub-command names).",
@@ -214,6 +219,8 @@ def judge(program, mod, inp, cfg_dir, seen=None):
                 + ("nested" if len(stages) >= 3 else "first-level")
                 + (":with-sibling-section" if inp.get("sib") is not None else ":alone")
             )
+        if form in ("list", "dict", "mixed") and any(p[0] in ("dc", "optdc", "cls", "optcls") for p, _ in srcs.values()):
+            cover.append("class-typed-parameter-in-a-list-or-dict-of-components")
         if inp.get("cfg2") is not None:
             lvl = inp["cfg2"]
             both = any({"c", "d"} <= {c[0] for c in row} for row in inp["assign"])
@@ -432,30 +439,33 @@ def space(quick):
 
     def second_alphabet_and_two_configs():
         # second alphabet (Optional[generic] without default -> None, class-typed parameters), every component form
+        deep = not quick
         xflat("func", 1, "full")
-        xflat("func", 2, "lean")
+        xflat("func", 2, "lean" if deep else "lean3")
         xflat("list", 1, "full")
-        xflat("dict", 1, "lean")
+        xflat("dict", 1, "lean" if deep else "lean3")
         xflat("dataclass", 1, "full")
         xflat("plainclass", 1, "lean")
-        xklass([(0, 1), (1, 0)], "full")
+        xklass([(0, 1), (1, 0)], "full" if deep else "lean")
         xklass([(0, 1), (1, 0)], "lean", form="mixed")
         for form in ("func", "list"):
             xflat(form, 1, "lean", flip=1)
         # settings from two config sources (plan "none" = only the two-config inputs; the other inputs of these
-        # programs are in the blocks above)
+        # programs are in the blocks above).  Types: vectors differing from int in at most 1 position for the
+        # function and the list of functions (quick) / everywhere (thorough), int only for the other forms (quick)
         two = {"mark": "two-configs"}
-        flat("func", 2, "none:two", tag="-two-configs", **two)
+        dev = 1 if deep else 0
+        flat("func", 2, "none:two", max_dev=1, tag="-reduced-two-configs", **two)
         flat("list", 2, "none:two", max_dev=1, tag="-reduced-two-configs", **two)
-        flat("dict", 2, "none:deep:two", max_dev=1, tag="-reduced-two-configs", **two)
-        klass([(0, 2)], "none:two", ["shared"], (2,), max_dev=1, tag2="-two-configs", **two)
+        flat("dict", 2, "none:deep:two", max_dev=dev, tag="-reduced-two-configs", **two)
+        klass([(0, 2)], "none:two", ["shared"], (2,), max_dev=dev, tag2="-two-configs", **two)
         klass([(1, 1)], "none:two", ["shared"], (2,), max_dev=0, tag2="-two-configs", **two)
-        klass([(0, 2)], "none:two", None, (2,), form="mixed", max_dev=1, tag2="-reduced-two-configs", **two)
+        klass([(0, 2)], "none:two", None, (2,), form="mixed", max_dev=dev, tag2="-reduced-two-configs", **two)
 
     if quick:
         flat("func", 1, "full")
         flat("func", 2, "full")
-        flat("func", 3, "lean3:first")
+        flat("func", 3, "lean3:first1")
         flat("list", 1, "full:sel")
         flat("list", 2, "lean3")
         flat("dataclass", 1, "full")
@@ -505,6 +515,7 @@ def space(quick):
             flat(form, 1, "full", flip=1)
         flat("func", 2, "full", flip=1)
         klass([(0, 1), (1, 0)], "full", ["shared"], (2,), flip=1)
+        second_alphabet_and_two_configs()
     return out
 
 
@@ -553,6 +564,9 @@ def explore(ctx):
         caps_hit=[],
         bounds={
             "types": {k: gen.TYPES[k][0] for k in gen.TYPE_ORDER},
+            "second_alphabet": {k: gen.TYPES[k][0] for k in gen.X_ORDER},
+            "second_alphabet_signatures": "every default/kind pattern of length 1 and 2 x every position x every type "
+            "of the second alphabet at that position, int elsewhere (44 / 242 signatures)",
             "parameter_options": "8 types x {required, default} x {positional-or-keyword, keyword-only}",
             "legal_signatures_by_parameter_count": sig_counts,
             "blocks": blocks,
@@ -576,11 +590,24 @@ def explore(ctx):
                 "only-required, as_positional=True and the other values with --config last; for the leaves that are "
                 "not the enumerated one (so that a sub-command that is not the first of its level is selected too) "
                 "only 'everything in the config' per (k, sibling)",
+                ":two": "additionally the settings come from two config files: every distribution of the parameters "
+                "of the path over a first file (top level, nested sections) and a second file, both used, x every "
+                "parser level the second file can be given at (0 = second --config at the top level, an intermediate "
+                "sub-command level, the component's own level); per (distribution, level): everything given with "
+                "as_positional=False, the same with as_positional=True, only the required parameters",
+                "none": "no inputs besides those of the suffixes (the programs' other inputs are in another block)",
                 ":deep": "dict form: only the leaf at depth 3",
                 ":first": "lean3 with only the first required parameter omitted (instead of each in turn)",
+                ":first1": "as :first, and the omission only for the type vectors that differ from int in at most one "
+                "position (the valid inputs for every signature)",
             },
             "reduction": "dict form with 2 parameters and classes with 2+0 / 0+2 (__init__ + method) parameters: type "
-            "vectors that differ from int in at most 1 position (15 of 64); everything else unreduced"
+            "vectors that differ from int in at most 1 position (15 of 64); 3-parameter functions: the input with the "
+            "first required parameter omitted only for the type vectors that differ from int in at most 1 position "
+            "(22 of 512; the two valid inputs for all 13312 signatures); second alphabet: one position of the "
+            "signature, int elsewhere; two-config blocks: type vectors that differ from int in at most 1 position "
+            "(function, list of functions) or int only (dict, class 0+2 and 1+1, function + class); everything else "
+            "unreduced"
             if ctx.quick
             else "4-parameter functions: all 57 default/kind patterns x the type vectors that differ from int in at "
             "most 2 positions (323 of 4096); list/3, dataclass/3, plainclass/3 and dict/3: type vectors that differ from "
@@ -608,6 +635,21 @@ def explore(ctx):
         not lacking,
         "every type hint is bound through every source (argv positional / argv option / config / default; Optional "
         "without default -> None)" + (f"; missing: {lacking}" if lacking else ""),
+    )
+    needx = {f"{t}:{s}" for t in gen.X_ORDER for s in ("argv-option", "config", "default")}
+    needx |= {f"{t}:optional-none" for t in gen.X_ORDER if t in gen.OPTIONAL}
+    needx |= {f"{t}:argv-positional" for t in gen.X_ORDER if t not in gen.OPTIONAL and t not in gen.NEVER_POSITIONAL}
+    needx |= {
+        f"two-configs:{w}:same-component"
+        for w in ("both-at-the-top-level", "second-at-an-intermediate-level", "second-at-the-component-level")
+    } | {"two-configs:both-at-the-top-level:constructor-and-method", "class-typed-parameter-in-a-list-or-dict-of-components"}
+    lackingx = sorted(needx - cover)
+    ctx.require(
+        not lackingx,
+        "every type of the second alphabet (Optional[generic], Tuple, dataclass, class_path types) is bound through "
+        "every source, also as a parameter of one of several components; the settings of one component come from two "
+        "config files given at the same level, at an intermediate level and at the component's level"
+        + (f"; missing: {lackingx}" if lackingx else ""),
     )
     need2 = {f"method:{k}:{w}" for k in gen.KINDS for w in ("own", "inherited")} | {"init:own", "init:inherited"}
     need2 |= {f"select-by-config:{d}:{w}" for d in ("first-level", "nested") for w in ("alone", "with-sibling-section")}
